@@ -12,7 +12,7 @@ def components():
 
 
 def oracles_():
-    return [oracles.RoundTrip(), comps_doc.RoundTripX(), comps_doc.RoundTripMeta(), comps_doc.RoundTripTypes(), comps_doc.LybCollisionRT()]
+    return [oracles.RoundTrip(), comps_doc.RoundTripX(), comps_doc.RoundTripMeta(), comps_doc.RoundTripTypes(), comps_doc.LybCollisionRT(), comps_doc.SingleNodeX(), comps_doc.MetaOrderX()]
 
 MANIFEST = {
     "text": "Coq theorems: (XML) the text printer/lexer pair is an exact round trip for every string of accepted characters of any "
@@ -63,7 +63,12 @@ MANIFEST = {
             "only. The seven findings of this slice (json-trim-leaflist-meta, xml-meta-prefix-clash, json-opaq-attr-unqualified, "
             "json-anydata-unqualified, json-anydata-nested-same-list, json-opaq-mixed-array, json-opaq-list-value-lost) are fixed "
             "(known_findings.d/doc.json: commits; their witnesses are regression cases of RoundTripX / WellFormedX and Examples "
-            "of the Properties files; no oracle excuses them any more). Listed and open: json-opaq-array-attr (attributes of "
+            "of the Properties files; no oracle excuses them any more). RoundTripX family anyopt: every print option set (with / without WITHSIBLINGS = lyd_print_tree, with-defaults "
+            "modes, shrink, keep-empty) x XML / JSON / LYB x anydata / anyxml values that are data trees with 0, 1, >= 2 "
+            "top-level nodes and anydata nested in anydata, in single-root data, notifications, RPCs and replies. MetaOrderX: the "
+            "same instance with the metadata of every node in canonical and in permuted order (with-defaults default attribute "
+            "2nd, 3rd ...) as XML and JSON must parse to the same tree. SingleNodeX: one node printed alone. Fixed: "
+            "json-nested-any-module-lost (58cec3d), xml-wd-default-attr-not-first (e9866d8). Listed and open: json-opaq-array-attr (attributes of "
             "opaque array instances in JSON), json-opaq-unknown-meta, with replays and proposed patches; lyb-union-member-reresolved (the "
             "LYB printer re-resolved the member of a union value without validation) is fixed by affc70d.",
     "technique": "Coq proof over hand-written model + differential correspondence (extracted OCaml vs C) + round-trip oracle",
